@@ -189,6 +189,25 @@ const PAIRS: &[(&str, &str, &str, &str)] = &[
     ("cross-basis", "Mat4x4::apply_pt result basis", "let _r = m_ab.apply_pt(&p3a) - p3a;", "let _r = m_ab.apply_pt(&p3a) - p3b;"),
     ("wrong-source-space", "Mat3x3::apply_pt twice", "let _r = m2_ab.apply_pt(&m2_ab.apply_pt(&p2a));", "let _r = m2_bc.apply_pt(&m2_ab.apply_pt(&p2a));"),
     ("wrong-source-space", "RealToProj composite applied", "let _r = q_b.compose(&m_ab).apply(&p3b);", "let _r = q_b.compose(&m_ab).apply(&p3a);"),
+    ("point-plus-point", "Iterator::sum over points", "let _r = [p3a, p3a2].into_iter().sum::<Vec3<A>>();", "let _r = [v3a, v3a2].into_iter().sum::<Vec3<A>>();"),
+    ("point-plus-point", "Iterator::sum over 2-D points", "let _r: Vec2<A> = [p2a, p2a2].into_iter().sum();", "let _r: Vec2<A> = [v2a, v2a2].into_iter().sum();"),
+    ("cross-basis", "Iterator::sum into another basis", "let _r = [v3a, v3a2].into_iter().sum::<Vec3<B>>();", "let _r = [v3a, v3a2].into_iter().sum::<Vec3<A>>();"),
+    ("point-plus-point", "implicit Point -> Vector conversion", "let _r: Vec3<A> = p3a.into();", "let _r: Vec3<A> = p3a.to_vec();"),
+    ("point-plus-point", "implicit Vector -> Point conversion", "let _r: Point3<A> = v3a.into();", "let _r: Point3<A> = v3a.to_pt();"),
+    ("cross-basis", "implicit conversion between bases", "let _r: Vec3<A> = v3b.into();", "let _r: Vec3<A> = v3b.to();"),
+    ("cross-basis", "From between bases (points)", "let _r = Point3::<A>::from(p3b);", "let _r = Point3::<A>::from(p3b.0);"),
+    ("mixed-dimension", "implicit Vec2 -> Vec3", "let _r: Vec3<A> = v2a.into();", "let _r: Vec3<A> = vec3(v2a.x(), v2a.y(), 0.0);"),
+    ("bare-number-as-angle", "implicit f32 -> Angle conversion", "let _r: Angle = 1.0f32.into();", "let _r: Angle = rads(1.0f32);"),
+    ("bare-number-as-angle", "Angle -> f32 conversion", "let _r: f32 = degs(1.0).into();", "let _r: f32 = degs(1.0).to_rads();"),
+    ("cross-colour-space", "implicit HSL -> RGB conversion", "let _r: Color3f<Rgb> = hsl_f.into();", "let _r: Color3f<Rgb> = hsl_f.to_rgb();"),
+    ("projective-as-affine", "implicit projective -> affine matrix", "let _r: Mat4x4<RealToReal<3, A, A>> = q_a.into();", "let _r: Mat4x4<RealToReal<3, A, A>> = q_a.to();"),
+    ("compose-mismatch", "implicit matrix retagging", "let _r: Mat4x4<RealToReal<3, A, C>> = m_ab.into();", "let _r: Mat4x4<RealToReal<3, A, C>> = m_ab.to();"),
+    ("cross-basis", "Vector == Vector across bases", "let _r = v3a == v3b;", "let _r = v3a == v3a2;"),
+    ("cross-basis", "Point == Point across bases", "let _r = p3a == p3b;", "let _r = p3a == p3a2;"),
+    ("cross-basis", "approx_eq across bases", "let _r = v3a.approx_eq(&v3b);", "let _r = v3a.approx_eq(&v3a2);"),
+    ("cross-basis", "Vector::vector_project across bases", "let _r = v3a.vector_project(&v3b);", "let _r = v3a.vector_project(&v3a2);"),
+    ("cross-basis", "Point::distance across bases", "let _r = p3a.distance(&p3b);", "let _r = p3a.distance(&p3a2);"),
+    ("cross-basis", "Vector::clamp across bases", "let _r = v3a.clamp(&v3b, &v3a2);", "let _r = v3a.clamp(&v3a2, &v3a2);"),
     ("mixed-dimension", "colour with alpha mixed with colour without", "let _r = rgb_f.lerp(&rgba(0.1f32, 0.2, 0.3, 1.0), 0.5);", "let _r = rgb_f.lerp(&rgba(0.1f32, 0.2, 0.3, 1.0).to_rgb(), 0.5);"),
     // ---- render(): the vertex shader must output clip-space (projective) positions
     (
